@@ -1,5 +1,5 @@
 ------------------------------- MODULE Conc -------------------------------
-(* C13 - design model of ONE shared minify.M used from N goroutines.
+(* C13 - design model of ONE shared minify.M used from NG goroutines.
 
    Transcribed from /repo/minify.go (M.mutex, Match, MinifyMimetype, Add*, cmdMinifier.Minify),
    css/css.go + svg/svg.go (Minify: tmp copy of the option struct, Inline/newPrecision written to
@@ -26,9 +26,9 @@
      AllowReg    Add* concurrent with use: documented as unsupported, OUTSIDE the property            *)
 EXTENDS Integers, Sequences, FiniteSets, TLC, Json, SequencesExt
 
-CONSTANTS N, MaxCalls, ShapeNames, AllowReg, CopyOpts, TightCap, CopyArgs, HtmlDep
+CONSTANTS NG, MaxCalls, ShapeNames, AllowReg, CopyOpts, TightCap, CopyArgs, HtmlDep
 
-G == 1 .. N
+G == 1 .. NG
 Iota(n) == [i \in 1 .. n |-> i]      \* <<1, ..., n>> for the eager folds
 
 (* ----------------------------- call shapes ------------------------------ *)
@@ -71,6 +71,7 @@ AppendsPkg(mt) == mt \in {"css", "html"}                             \* append(u
 DomainShapes == AllShapes \ {"add", "cmdin"}                         \* the property's domain on the unchanged tree
 SmallShapes == {"cssi", "svg1", "htmlS", "htmlG", "gatere", "matchP", "cmd"}
 PairShapes == {"cssi", "svg0", "htmlS", "gate"}
+QuickShapes == {"css", "cssi", "svg0", "svg1", "htmlS", "htmlG", "gatere", "matchP", "cmd", "none"}
 
 Tmpl == << 0, 0 >>                  \* cmd.Args still holds the registered template / slice base untouched
 Res(mt, v, inl, pk, ar, kids) == [mt |-> mt, v |-> v, inl |-> inl, pk |-> pk, ar |-> ar, kids |-> kids]
@@ -80,20 +81,19 @@ NoRes == Res("", "none", FALSE, "own", Tmpl, <<>>)
 VARIABLES s, hist
 vars == << s, hist >>
 
-Frame(node) == [node |-> node, pc |-> IF node.e = "add" THEN "wlock" ELSE "rlock",
-                i |-> 1, inl |-> FALSE, pk |-> "own", ar |-> Tmpl, found |-> FALSE,
-                kres |-> <<>>, r |-> NoRes]
+Frame(node, sh) == [node |-> node, sh |-> sh, pc |-> IF node.e = "add" THEN "wlock" ELSE "rlock",
+                    i |-> 1, inl |-> FALSE, pk |-> "own", ar |-> Tmpl, found |-> FALSE, kres |-> <<>>]
 
 InitS == [ st   |-> [g \in G |-> <<>>],          \* call stack of goroutine g (top = last)
            k    |-> [g \in G |-> 0],             \* calls completed by g
-           prog |-> [g \in G |-> <<>>],          \* shape names g has called so far
-           res  |-> [g \in G |-> <<>>],          \* results returned to g
            rc   |-> 0, wp |-> 0, wh |-> 0,       \* the RWMutex
            gate |-> [g \in G |-> FALSE],         \* gate of g's current call is open
            opt  |-> [mt \in {"css", "svg", "html"} |-> FALSE],   \* shared option structs (Inline / mutated flag)
            pkg  |-> Tmpl,                        \* backing array of the package-level append bases
            args |-> Tmpl,                        \* exec.Cmd.Args of the registered command
-           acc  |-> {}, wr |-> {} ]
+           acc  |-> {},                          \* every kind of access to a shared location taken so far
+           wr   |-> {},                          \* writes to shared locations by use calls
+           bad  |-> {} ]                         \* calls whose result differs from the sequential one
 
 Top(t, g) == t.st[g][Len(t.st[g])]
 Active(t, g) == t.st[g] # <<>>
@@ -101,7 +101,22 @@ SetTop(t, g, f) == [t EXCEPT !.st[g][Len(t.st[g])] = f]
 Acc(t, loc, rw) == [t EXCEPT !.acc = @ \cup {<< loc, rw >>}]
 Wr(t, loc, g) == [t EXCEPT !.acc = @ \cup {<< loc, "w" >>}, !.wr = @ \cup {<< loc, g >>}]
 
+\* what a sequential call on a fresh registry returns: a function of (input, options) only
+RECURSIVE Expected(_)
+Expected(node) ==
+  IF node.e = "match" THEN Res(node.mt, "match", FALSE, "own", Tmpl, <<>>)
+  ELSE IF node.e = "add" THEN Res(node.mt, "added", FALSE, "own", Tmpl, <<>>)
+  ELSE IF ~Registered(node.mt) THEN Res(node.mt, "notexist", FALSE, "own", Tmpl, <<>>)
+  ELSE Res(node.mt, "ok", node.inl, "own", Tmpl, [i \in 1 .. Len(node.kids) |-> Expected(node.kids[i])])
+\* for cmdin the expected result names the call's own temporary file
+ExpectedAt(node, me) == IF node.mt = "cmdin" THEN [Expected(node) EXCEPT !.ar = me] ELSE Expected(node)
+
 (* ---------------------- the step of goroutine g ------------------------- *)
+(* Steps that touch only goroutine-private state (pushing the frame of the next embedded resource,
+   computing the result) commute with every step of every other goroutine; they are merged into the
+   preceding step.  Lock operations, gate waits and every access to a shared location are steps of
+   their own. *)
+
 \* the only steps that can be disabled: lock operations and a closed gate
 Enabled(t, g) ==
   /\ Active(t, g)
@@ -116,6 +131,13 @@ ResultOf(f) ==
   IF f.node.e = "match" THEN Res(f.node.mt, "match", FALSE, "own", Tmpl, <<>>)
   ELSE IF ~f.found THEN Res(f.node.mt, "notexist", FALSE, "own", Tmpl, <<>>)
   ELSE Res(f.node.mt, "ok", f.inl, f.pk, f.ar, f.kres)
+
+\* the minifier body continues (private): next embedded resource, else the append, else the gate, else return
+Continue(t, g, f) ==
+  IF f.i <= Len(f.node.kids)
+  THEN [SetTop(t, g, [f EXCEPT !.i = @ + 1, !.pc = "inkid"]) EXCEPT !.st[g] = Append(@, Frame(f.node.kids[f.i], f.sh))]
+  ELSE SetTop(t, g, [f EXCEPT !.pc = IF AppendsPkg(f.node.mt) THEN "body"
+                                     ELSE IF IsGate(f.node.mt) THEN "park" ELSE "runlock"])
 
 Do(t, g) ==
   LET f == Top(t, g)
@@ -133,63 +155,55 @@ Do(t, g) ==
          IF mt \in {"css", "svg"} THEN
            LET t1 == Acc(t, "opt", "r")
                eff == t.opt[mt] \/ f.node.inl              \* if !o.Inline { o.Inline = params["inline"] == "1" }
-           IN IF CopyOpts THEN SetTop(t1, g, [f EXCEPT !.pc = "kids", !.inl = eff])
-              ELSE SetTop([Wr(t1, "opt", g) EXCEPT !.opt[mt] = eff], g, [f EXCEPT !.pc = "kids", !.inl = eff])
+           IN IF CopyOpts THEN Continue(t1, g, [f EXCEPT !.inl = eff])
+              ELSE Continue([Wr(t1, "opt", g) EXCEPT !.opt[mt] = eff], g, [f EXCEPT !.inl = eff])
          ELSE IF mt = "html" THEN
            LET t1 == Acc(t, "opt", "r")
            IN IF HtmlDep /\ ~t.opt["html"]                 \* o.KeepSpecialComments = true; o.KeepConditionalComments = false
-              THEN SetTop([Wr(t1, "opt", g) EXCEPT !.opt["html"] = TRUE], g, [f EXCEPT !.pc = "kids"])
-              ELSE SetTop(t1, g, [f EXCEPT !.pc = "kids"])
+              THEN Continue([Wr(t1, "opt", g) EXCEPT !.opt["html"] = TRUE], g, f)
+              ELSE Continue(t1, g, f)
          ELSE IF mt \in {"cmd", "cmdin"} THEN              \* *cmd = *c.cmd ; for i, arg := range cmd.Args
            LET t1 == Acc(t, "args", "r")
            IN IF mt = "cmdin" /\ ~CopyArgs
-              THEN IF t.args = Tmpl                      \* cmd.Args[i] = ... writes the registered command's array
-                   THEN SetTop([Wr(t1, "args", g) EXCEPT !.args = me], g, [f EXCEPT !.pc = "kids", !.ar = me])
-                   ELSE SetTop(t1, g, [f EXCEPT !.pc = "kids", !.ar = t.args])   \* no $in left: reads the other call's file
-              ELSE SetTop(t1, g, [f EXCEPT !.pc = "kids", !.ar = IF mt = "cmdin" THEN me ELSE Tmpl])
-         ELSE SetTop(t, g, [f EXCEPT !.pc = "kids"])
-    [] f.pc = "kids" ->                                  \* m.MinifyMimetype(...) for the next embedded resource
-         IF f.i <= Len(f.node.kids)
-         THEN [SetTop(t, g, [f EXCEPT !.i = @ + 1]) EXCEPT !.st[g] = Append(@, Frame(f.node.kids[f.i]))]
-         ELSE SetTop(t, g, [f EXCEPT !.pc = "body"])
+              THEN IF t.args = Tmpl                        \* cmd.Args[i] = ... writes the registered command's array
+                   THEN Continue([Wr(t1, "args", g) EXCEPT !.args = me], g, [f EXCEPT !.ar = me])
+                   ELSE Continue(t1, g, [f EXCEPT !.ar = t.args])     \* no $in left: runs on the other call's file
+              ELSE Continue(t1, g, [f EXCEPT !.ar = IF mt = "cmdin" THEN me ELSE Tmpl])
+         ELSE Continue(Acc(t, "opt", "r"), g, [f EXCEPT !.inl = f.node.inl])   \* js, json, xml, user functions: params are private
     [] f.pc = "body" ->                                  \* append(urlBytes, ...): reads the base, writes it iff cap > len
-         IF AppendsPkg(mt)
-         THEN LET t1 == Acc(t, "pkg", "r")
-              IN IF TightCap THEN SetTop(t1, g, [f EXCEPT !.pc = "fin"])
-                 ELSE SetTop([Wr(t1, "pkg", g) EXCEPT !.pkg = me], g, [f EXCEPT !.pc = "fin"])
-         ELSE SetTop(t, g, [f EXCEPT !.pc = IF IsGate(mt) THEN "park" ELSE "fin"])
+         LET t1 == Acc(t, "pkg", "r")
+         IN IF TightCap THEN SetTop(t1, g, [f EXCEPT !.pc = "runlock"])
+            ELSE SetTop([Wr(t1, "pkg", g) EXCEPT !.pkg = me], g, [f EXCEPT !.pc = "fin"])
+    [] f.pc = "fin" ->                                   \* loose cap only: the bytes are read back from the shared array
+         SetTop(Acc(t, "pkg", "r"), g, [f EXCEPT !.pc = "runlock", !.pk = IF t.pkg = me THEN "own" ELSE "foreign"])
     [] f.pc = "park" ->                                  \* the gate opens
-         SetTop(t, g, [f EXCEPT !.pc = "fin"])
-    [] f.pc = "fin" ->                                   \* w.Write(result); with a loose cap the bytes are read back from the shared array
-         LET pk == IF AppendsPkg(mt) /\ ~TightCap THEN (IF t.pkg = me THEN "own" ELSE "foreign") ELSE "own"
-             f1 == [f EXCEPT !.pk = pk, !.pc = "runlock"]
-         IN SetTop(IF AppendsPkg(mt) /\ ~TightCap THEN Acc(t, "pkg", "r") ELSE t, g, [f1 EXCEPT !.r = ResultOf(f1)])
+         SetTop(t, g, [f EXCEPT !.pc = "runlock"])
     [] f.pc = "runlock" ->                               \* defer m.mutex.RUnlock(); return
-         LET r == IF f.r.v = "none" THEN ResultOf(f) ELSE f.r
+         LET r == ResultOf(f)
              t1 == [t EXCEPT !.rc = @ - 1, !.st[g] = SubSeq(@, 1, Len(@) - 1)]
          IN IF Len(t.st[g]) > 1
-            THEN LET p == Top(t1, g) IN SetTop(t1, g, [p EXCEPT !.kres = Append(@, r)])
-            ELSE [t1 EXCEPT !.res[g] = Append(@, r), !.k[g] = @ + 1, !.gate[g] = FALSE]
+            THEN LET p == Top(t1, g) IN Continue(t1, g, [p EXCEPT !.kres = Append(@, r)])
+            ELSE [t1 EXCEPT !.k[g] = @ + 1, !.gate[g] = FALSE,
+                            !.bad = IF r = ExpectedAt(f.node, me) THEN @ ELSE @ \cup {me}]
     \* ---- registration (only with AllowReg; outside the property) ----
     [] f.pc = "wlock" -> SetTop([t EXCEPT !.wp = g], g, [f EXCEPT !.pc = "wwait"])
     [] f.pc = "wwait" -> SetTop([t EXCEPT !.wp = 0, !.wh = g], g, [f EXCEPT !.pc = "wwrite"])
     [] f.pc = "wwrite" -> SetTop(Acc(t, "literal", "w"), g, [f EXCEPT !.pc = "wunlock"])
-    [] f.pc = "wunlock" ->
-         [t EXCEPT !.wh = 0, !.st[g] = <<>>, !.k[g] = @ + 1,
-                   !.res[g] = Append(@, Res(mt, "added", FALSE, "own", Tmpl, <<>>))]
+    [] f.pc = "wunlock" -> [t EXCEPT !.wh = 0, !.st[g] = <<>>, !.k[g] = @ + 1]
 
 (* visible events of a step (what the driver can observe or cause) *)
 Ev(e, g, k, sh) == [ev |-> e, g |-> g, k |-> k, sh |-> sh]
 Vis(t, g) ==
   LET f == Top(t, g) IN
-  IF f.pc = "body" /\ IsGate(f.node.mt) THEN << Ev("parked", g, t.k[g] + 1, t.prog[g][t.k[g] + 1]) >>
-  ELSE IF (f.pc = "runlock" /\ Len(t.st[g]) = 1) \/ f.pc = "wunlock" THEN << Ev("done", g, t.k[g] + 1, t.prog[g][t.k[g] + 1]) >>
+  IF f.pc = "enter" /\ IsGate(f.node.mt) THEN << Ev("parked", g, t.k[g] + 1, f.sh) >>
+  ELSE IF (f.pc = "runlock" /\ Len(t.st[g]) = 1) \/ f.pc = "wunlock" THEN << Ev("done", g, t.k[g] + 1, f.sh) >>
   ELSE <<>>
 
-Begin(t, g, sh) == [t EXCEPT !.st[g] = << Frame(Cat[sh]) >>, !.prog[g] = Append(@, sh)]
+Begin(t, g, sh) == [t EXCEPT !.st[g] = << Frame(Cat[sh], sh) >>]
 CanBegin(t, g) == ~Active(t, g) /\ t.k[g] < MaxCalls
 AtGate(t, g) == Active(t, g) /\ Top(t, g).pc = "park"
 OpenGate(t, g) == [t EXCEPT !.gate[g] = TRUE]
+Parked(t, g) == AtGate(t, g) /\ ~t.gate[g]
 
 (* ------------------------------- actions -------------------------------- *)
 Init == s = InitS /\ hist = <<>>
@@ -206,29 +220,28 @@ Step(g) == /\ Enabled(s, g)
 
 Release(g) == /\ AtGate(s, g) /\ ~s.gate[g]
               /\ s' = OpenGate(s, g)
-              /\ hist' = Append(hist, Ev("release", g, s.k[g] + 1, s.prog[g][s.k[g] + 1]))
+              /\ hist' = Append(hist, Ev("release", g, s.k[g] + 1, Top(s, g).sh))
 
 AllDone == \A g \in G : ~Active(s, g) /\ s.k[g] = MaxCalls
 Finished == AllDone /\ UNCHANGED vars
 
 Next == (\E g \in G : Start(g) \/ Step(g) \/ Release(g)) \/ Finished
 Spec == Init /\ [][Next]_vars
+\* for -simulate: walks end when every goroutine has returned (no stuttering tail)
+NextGen == \E g \in G : Start(g) \/ Step(g) \/ Release(g)
+SpecGen == Init /\ [][NextGen]_vars
+\* the same with the driver holding every gate closed for as long as any other goroutine can move
+\* (the schedules that matter for "parked readers never delay other calls")
+Busy(g) == Active(s, g) /\ ~Parked(s, g)
+NextLazy == \E g \in G : \/ Start(g) \/ Step(g)
+                         \/ (Release(g) /\ \A h \in G \ {g} : ~Busy(h) /\ ~CanBegin(s, h))
+SpecLazy == Init /\ [][NextLazy]_vars
 
 View == s                      \* hist is a history variable: it does not distinguish states
 
 (* ------------------------------ invariants ------------------------------ *)
-\* what a sequential call on a fresh registry returns: a function of (input, options) only
-RECURSIVE Expected(_)
-Expected(node) ==
-  IF node.e = "match" THEN Res(node.mt, "match", FALSE, "own", Tmpl, <<>>)
-  ELSE IF node.e = "add" THEN Res(node.mt, "added", FALSE, "own", Tmpl, <<>>)
-  ELSE IF ~Registered(node.mt) THEN Res(node.mt, "notexist", FALSE, "own", Tmpl, <<>>)
-  ELSE Res(node.mt, "ok", node.inl, "own", Tmpl, [i \in 1 .. Len(node.kids) |-> Expected(node.kids[i])])
-\* for cmdin the expected result names the call's own temporary file
-ExpectedAt(node, g, k) == IF node.mt = "cmdin" THEN [Expected(node) EXCEPT !.ar = << g, k >>] ELSE Expected(node)
-
 \* "every call returns exactly the bytes a sequential call with the same input and options returns"
-Deterministic == \A g \in G : \A j \in 1 .. Len(s.res[g]) : s.res[g][j] = ExpectedAt(Cat[s.prog[g][j]], g, j)
+Deterministic == s.bad = {}
 
 \* "option structs passed in by the user are never mutated" / "no data races": no use call ever
 \* writes a shared location (no write => every pair of accesses is read/read => no race)
@@ -236,7 +249,6 @@ SharedReadOnly == s.wr = {}
 
 \* "no call blocks on another": every goroutine that is inside a call can take its next step unless it
 \* sits at its own closed gate ...
-Parked(t, g) == AtGate(t, g) /\ ~t.gate[g]
 NoBlocking == \A g \in G : (Active(s, g) /\ ~Parked(s, g)) => Enabled(s, g)
 
 \* ... and it can even run to completion with every other goroutine frozen where it is
@@ -251,8 +263,8 @@ CompletesAlone == \A g \in G : Active(s, g) =>
                     LET a == RunAlone(s, g) IN a.ok /\ ~Active(a.t, g)
 
 \* the lock counters mean what they say
-Holds(t, g) == Cardinality({i \in 1 .. Len(t.st[g]) : t.st[g][i].pc \in {"lookup", "enter", "kids", "body", "park", "fin", "runlock"}})
-SumHolds(t) == FoldLeft(LAMBDA a, g : a + Holds(t, g), 0, Iota(N))
+Holds(t, g) == Cardinality({i \in 1 .. Len(t.st[g]) : t.st[g][i].pc \in {"lookup", "enter", "inkid", "body", "park", "fin", "runlock"}})
+SumHolds(t) == FoldLeft(LAMBDA a, g : a + Holds(t, g), 0, Iota(NG))
 LockSane == /\ s.rc = SumHolds(s)
             /\ (s.wh # 0 => s.rc = 0)
             /\ (~AllowReg => s.wp = 0 /\ s.wh = 0)
